@@ -517,9 +517,9 @@ func runC19(tier string, seed uint64) int {
 			bad = append(bad, k)
 		}
 	}
-	reported := 0
+	reported, tried := 0, 0
 	for _, k := range bad {
-		if reported >= 4 {
+		if reported >= 4 || tried >= 8 {
 			fmt.Printf("note: %d further failing cells not minimised\n", len(bad)-reported)
 			break
 		}
@@ -532,6 +532,8 @@ func runC19(tier string, seed uint64) int {
 		}
 		if rp.violation(rep) {
 			reported++
+		} else if knownFinding(rp.findings, rep.Property, rep.Sig) == nil {
+			tried++ // a repeat of a signature already reported in this run (listed findings never count)
 		}
 	}
 	var samples []interface{}
